@@ -39,6 +39,20 @@ func newTwin(name, mode string, bases []string) *twin {
 		// what cmd/gofakes3 passes when -hostbucket and -hostbucketbase are given: the bases win
 		opts = append(opts, gofakes3.WithHostBucket(true), gofakes3.WithHostBucketBase(bases...))
 		mode = "bases"
+	case "both-reversed":
+		opts = append(opts, gofakes3.WithHostBucketBase(bases...), gofakes3.WithHostBucket(true))
+		mode = "bases"
+	case "bases-hostbucket-off-first":
+		// the options are independent settings: naming host-bucket "off" explicitly, before or after the
+		// bases, is the same as not naming it
+		opts = append(opts, gofakes3.WithHostBucket(false), gofakes3.WithHostBucketBase(bases...))
+		mode = "bases"
+	case "bases-hostbucket-off-last":
+		opts = append(opts, gofakes3.WithHostBucketBase(bases...), gofakes3.WithHostBucket(false))
+		mode = "bases"
+	case "none-explicit":
+		opts = append(opts, gofakes3.WithHostBucket(false), gofakes3.WithHostBucketBase())
+		mode = "none"
 	}
 	return &twin{name: name, mode: mode, bases: bases, rec: rec, h: newServer(be, opts...)}
 }
@@ -111,6 +125,10 @@ func runC16(tier string, seed uint64) {
 		newTwin("both-fallback-base-itself", "both", bases),
 		newTwin("both-fallback-multilabel", "both", bases),
 		newTwin("both-fallback-unrelated", "both", bases),
+		newTwin("opts-both-reversed", "both-reversed", bases[:1]),
+		newTwin("opts-off-first", "bases-hostbucket-off-first", bases[:1]),
+		newTwin("opts-off-last", "bases-hostbucket-off-last", bases[:1]),
+		newTwin("opts-none-explicit", "none-explicit", nil),
 		newTwin("path-extra-leading-slash", "none", nil),
 		newTwin("path-trailing-slash", "none", nil),
 	}
@@ -218,7 +236,7 @@ func runC16(tier string, seed uint64) {
 				host = "x." + l.bucket + ".s3.example.com"
 			case "both-fallback-unrelated":
 				host = l.bucket + ".elsewhere.org"
-			case "base1", "base2", "base-nested-short-first", "base-nested-long-first", "both-base1":
+			case "base1", "base2", "base-nested-short-first", "base-nested-long-first", "both-base1", "opts-both-reversed", "opts-off-first", "opts-off-last":
 				host, path = l.bucket+".s3.example.com", l.hostStyle()
 			case "base2-second":
 				host, path = l.bucket+".other.test:9000", l.hostStyle()
